@@ -52,7 +52,8 @@ OP_SPACE = {
     'restrict': ['none', 'variety_list', 'booster', 'preamp', 'booster+preamp', 'variety_list+booster'],
     # 'P2_fusedout': no booster (a fused element directly after the ROADM), so the first automatic amplifier of the line is
     # not adjacent to the ROADM whose booster restriction it must therefore not take; '_inline' adds an amplifier slot
-    'graph': ['P2', 'P2_inline', 'P2_fused', 'P2_fusedout', 'P2_fusedout_inline'],
+    # 'P2_direct': the two ROADMs are joined without any fibre (the automatic amplifier is adjacent to both)
+    'graph': ['P2', 'P2_inline', 'P2_fused', 'P2_fusedout', 'P2_fusedout_inline', 'P2_direct'],
     'amp_voa': [0.0, 2.5],
     'used_library': [0, 1],                    # the library object designed another line (165 km span) before this one
     'band_spacing': [None, 37.5e9, 100e9],     # design band of the ROADM degrees with another channel spacing than SI
@@ -123,6 +124,8 @@ def topology(case, lib):
         fwd = [f(case['length'])]
         if r['variety_list'] is not None or case.get('amp_voa'):
             fwd = [dict(amp), f(case['length'])]     # operator-placed booster slot with its own variety list / VOA
+    elif case['graph'] == 'P2_direct':
+        fwd = []
     elif case['graph'] == 'P2_fusedout':
         fwd = [c.fused(0.5), f(case['length'])]
     elif case['graph'] == 'P2_fusedout_inline':
@@ -350,7 +353,8 @@ def main(rep, tier, seed):
     if tier == 'thorough':
         libs += [list(x) for x in itertools.combinations(NAMES, 4)]
     bases = [{}, {'graph': 'P2_inline', 'amp_voa': 2.5}, {'graph': 'P2_fused', 'length': 100},
-             {'graph': 'P2_fusedout', 'restrict': 'booster'}, {'graph': 'P2_fusedout_inline', 'restrict': 'booster+preamp'}]
+             {'graph': 'P2_fusedout', 'restrict': 'booster'}, {'graph': 'P2_fusedout_inline', 'restrict': 'booster+preamp'},
+             {'graph': 'P2_direct', 'restrict': 'preamp'}]
     sp = engine.Space(OP_SPACE, bases=bases)
     d = 1 if tier == 'quick' else 2
     ops = [{k: x[k] for k in OP_SPACE} for x in sp.enumerate(d, bases=bases)]
